@@ -390,6 +390,13 @@ def _affine_of_body(b):
                     if v is not None:
                         val[s["place"]["l"]] = v
             t = bl["term"]
+            if t["k"] == "call" and not t["dest"]["p"] and len(t["args"]) == 1:
+                f_ = mirq.callee_of(t)
+                if f_ is not None and f_["name"] in ("from", "into") and _int_width(mirq.local_ty(b, t["dest"]["l"])):
+                    v_ = _aff_operand(t["args"][0]["op"], val)     # a widening conversion keeps the value
+                    src_w = _int_width(t["args"][0]["ty"]) or 0
+                    if v_ is not None and v_[0] != "pair" and src_w <= _int_width(mirq.local_ty(b, t["dest"]["l"])):
+                        val[t["dest"]["l"]] = v_
             if t["k"] == "switch" and idx not in (None, "loop") and arm is None:
                 ch = mirq.switch_choice(b, bb, idx)
                 arm = ch
@@ -741,13 +748,19 @@ def rule_nonconsumption(facts):
         adt = im.get("self_adt")
         nexts = [b for b in facts.bodies if b.get("impl_path") == im["path"] and b["name"] == "next" and b["kind"] != "Closure"]
         inner = False
+
+        def drives_inner(f):
+            # a call to next/next_cfg of ANOTHER iterable parser (a delegation to a sibling method of the same type is not one)
+            if f is None or f.get("trait") not in ("IterParser", "ConfigIterParser") or f["name"] not in ("next", "next_cfg"):
+                return False
+            return ((f.get("resolved") or {}).get("self_adt") or f.get("self_adt")) != adt or adt is None
         for b in nexts:
             for _, bl, t, f in calls(b):
-                if f is not None and f.get("trait") in ("IterParser", "ConfigIterParser") and f["name"] in ("next", "next_cfg"):
+                if drives_inner(f):
                     inner = True
             for c in mirq.closure_bodies(facts, b):
                 for _, bl, t, f in calls(c):
-                    if f is not None and f.get("trait") in ("IterParser", "ConfigIterParser") and f["name"] in ("next", "next_cfg"):
+                    if drives_inner(f):
                         inner = True
         if not inner:
             continue
